@@ -259,7 +259,10 @@ func validNick(n string) bool {
 }
 
 func (g *Gen) genChan(t *rapid.T, w *World) string {
-	switch pickW(t, "chankind", 5, 6, 1, 1) {
+	switch pickW(t, "chankind", 5, 6, 1, 1, 6) {
+	case 4:
+		// the popular channels: most sessions meet here
+		return pick(t, "popularchan", []string{"#a", "#b"})
 	case 0:
 		return pick(t, "poolchan", chanPool)
 	case 1:
@@ -424,7 +427,7 @@ func DefaultConfig() Config {
 }
 
 func (g *Gen) tick(t *rapid.T) {
-	switch pickW(t, "tick", 12, 6, 3, 1, 1, 1) {
+	switch pickW(t, "tick", 30, 12, 5, 1, 1, 2) {
 	case 0:
 		g.nano += int64(rapid.IntRange(1, 999).Draw(t, "us")) * 1000
 	case 1:
@@ -501,6 +504,8 @@ func (g *Gen) fresh(t *rapid.T, w *World, id uint64) Entry {
 	wCreate, wDelete, wConfig, wMoD, wDead := 6, 2, 2, 0, 2
 	if len(live) == 0 {
 		wCreate = 60
+	} else if len(live) < 4 {
+		wCreate = 18
 	} else if len(live) >= 8 {
 		wCreate = 1
 	}
@@ -625,7 +630,9 @@ func (g *Gen) create(t *rapid.T, w *World, id uint64) Entry {
 		} else {
 			script = append(script, n, u)
 		}
-		switch pickW(t, "afterlogin", 3, 4, 1, 1) {
+		switch pickW(t, "afterlogin", 1, 3, 1, 1, 6) {
+		case 4:
+			script = append(script, Entry{Kind: "irc", Session: id, Data: "JOIN " + pick(t, "popularjoin", []string{"#a", "#b", "#a,#b"})})
 		case 1:
 			script = append(script, Entry{Kind: "irc", Session: id, Data: "JOIN " + g.genChan(t, w)})
 		case 2:
@@ -947,6 +954,18 @@ func (g *Gen) servicesLine(t *rapid.T, w *World, link *SessInfo) string {
 	if len(clients) > 0 && coin(t, "clienttarget", 3, 4) {
 		n = pick(t, "clientnick", clients)
 	}
+	// a services implementation never addresses its own link session as a user:
+	// nicknames owned by a services link are not used as targets.
+	linkNick := func(x string) bool {
+		o := w.nickOwner(NickLower(x))
+		return o != nil && o.Server
+	}
+	for k := 0; linkNick(n); k++ {
+		n = g.genValidNick(t, w)
+		if k > 4 {
+			n = "nolink" + fmt.Sprint(rapid.IntRange(0, 99).Draw(t, "nolink"))
+		}
+	}
 	c := g.genChan(t, w)
 	for k := 0; k < 3 && !validChan(c); k++ {
 		c = g.genChan(t, w)
@@ -973,12 +992,19 @@ func (g *Gen) servicesLine(t *rapid.T, w *World, link *SessInfo) string {
 	case 2:
 		return ":" + src + " PART " + anyc
 	case 3:
-		return ":" + src + " KICK " + anyc + " " + g.memberOr(t, w, anyc, n) + " :" + text
+		m := g.memberOr(t, w, anyc, n)
+		if linkNick(m) {
+			m = n
+		}
+		return ":" + src + " KICK " + anyc + " " + m + " :" + text
 	case 4:
 		m := pick(t, "svcmode", []string{"+o", "-o", "+t", "-t", "+s", "+r", "-r", "+i", "-i", "+tr", "+z", "+ntr", "+oo", "+k", "+b"})
 		arg := ""
 		if strings.ContainsAny(m, "okb") {
 			arg = " " + g.memberOr(t, w, anyc, n)
+			if linkNick(strings.TrimSpace(arg)) {
+				arg = " " + n
+			}
 		}
 		return ":" + src + " MODE " + anyc + " " + m + arg
 	case 5:
